@@ -50,13 +50,15 @@ func VerifyPE(r io.ReadSeeker, skipDigests bool) ([]PESignature, error) {
 		return nil, sigerrors.NotSignedError{Type: "PECOFF"}
 	}
 	// Read certificate table
-	sigblob := make([]byte, hvals.certSize)
 	if _, err := r.Seek(hvals.certStart, 0); err != nil {
 		return nil, err
 	}
-	if _, err := io.ReadFull(r, sigblob); err != nil {
+	// the size comes from the header; let the buffer grow with what is really there
+	var sigbuf bytes.Buffer
+	if _, err := io.CopyN(&sigbuf, r, hvals.certSize); err != nil {
 		return nil, err
 	}
+	sigblob := sigbuf.Bytes()
 	// Parse and verify signatures
 	if skipDigests {
 		r = nil
